@@ -1,6 +1,6 @@
 (* Properties_C04.v — property C04: solution ordering (best first) and cost algebra.  Statements only. *)
 From Coq Require Import List ZArith Bool Sorted Permutation Reals.
-From OmplV Require Import SolModel SolProofs SpacesModel CostModel CostProofs RrtStarModel RrtStarProofs RrtStarCost.
+From OmplV Require Import SolModel SolProofs SpacesModel CostModel CostProofs RrtStarModel RrtStarProofs RrtStarCost RrtStarCost2.
 Import ListNotations.
 
 (* for solutions that share one objective (or none), operator< IS the intended lexicographic order:
@@ -111,6 +111,22 @@ Proof.
   destruct (star_solve_full St C clt cadd c0 dflt H1 nn H2 H3 H4 dist mcost sym csat steer maxd mv sat gdist goal_state bias kof H5 starts iters tape samples Hs) as (_ & (_ & _ & HK & _) & _).
   exact (HK j).
 Qed.
+(* ... and that cost is the objective's cost of the reported path, accumulated from its first state as PathGeometric::cost does —
+   PROVIDED the symmetric-cost shortcut of the rewiring pass (reuse of the cost of the opposite motion when isSymmetric() answers true)
+   is only taken for an objective whose motion cost really is symmetric.  This hypothesis is the defect repaired in
+   MechanicalWorkOptimizationObjective (it answered true); the example after the assumptions shows what happens without it *)
+Theorem C04_rrtstar_stored_cost_is_cost_of_reported_path :
+  forall (St C : Type) (clt : C -> C -> bool) (cadd : C -> C -> C) (c0 : C) (dflt : St) (dist mcost : St -> St -> C) (sym : bool) (csat : C -> bool)
+         (steer : St -> St -> St) (maxd : C) (mv : St -> St -> bool) (sat : St -> bool) (gdist : St -> C) (goal_state : St) (bias : C) (kof : nat -> nat),
+  (sym = true -> forall a b : St, mcost a b = mcost b a) ->
+  (forall a b c : C, cle C clt a b -> cle C clt b c -> cle C clt a c) ->
+  forall nn : C -> Prop, (forall a i : C, nn i -> cle C clt a (cadd a i)) -> (forall a : C, clt a a = false) -> nn c0 -> (forall a b : St, nn (mcost a b)) ->
+  forall (starts : list St) (iters : nat) (tape : list C) (samples : list St), starts <> nil ->
+  match snd (star_solve St C dist clt cadd c0 mcost sym csat steer maxd mv sat gdist goal_state dflt bias kof starts iters tape samples) with
+  | Some (path, _, _, stored, _) => stored = pathcost St C cadd c0 mcost path
+  | None => True
+  end.
+Proof. exact star_stored_cost_is_path_cost. Qed.
 (* minimax objectives: the path cost is the worst state cost evaluated along any motion, both end states of every
    motion included (or the identity cost): the maximum for MinimaxObjective, the minimum for max-min clearance *)
 Theorem C04_minimax_cost_is_max :
@@ -140,6 +156,7 @@ Print Assumptions C04_work_motion_cost_is_directional.
 Print Assumptions C04_multi_cost_is_weighted_sum.
 Print Assumptions C04_multi_length_plus_integral.
 Print Assumptions C04_rrtstar_cost_is_parent_cost_plus_inccost.
+Print Assumptions C04_rrtstar_stored_cost_is_cost_of_reported_path.
 Print Assumptions C04_minimax_cost_is_max.
 Print Assumptions C04_clearance_cost_is_min.
 
@@ -156,4 +173,16 @@ Example C04_mixed_objective_refuted :
   let c := mkSol 1 false 0 false false false 0 20 in    (* no objective, length 2.0 (x10) *)
   let d := mkSol 2 false 0 false true false 2 5 in      (* objective cost 2, length 0.5 (x10) *)
   slt b c = false /\ slt c b = false /\ slt c d = false /\ slt d c = false /\ slt b d = true.
+Proof. vm_compute. repeat split. Qed.
+
+(* the symmetric shortcut on a direction-dependent objective (climbing costs ten times the distance, descending once): two iterations on
+   the line — 10 is reached from 0 at cost 100; then 5 is added below 0 at cost 50 and 10 is rewired through 5 with the cost of the
+   DESCENT from 10 to 5 — and the planner reports the path 0, 5, 10 with a stored cost of 55 although the path costs 100.  With the
+   objective answering isSymmetric() = false the neighbour is not rewired (50 + 50 is not better than 100) and the report is 0, 10 at 100 *)
+Example C04_rrtstar_symmetric_shortcut_on_directional_cost_refuted :
+  let mc := fun a b : Z => if (a <? b)%Z then (10 * (b - a))%Z else (a - b)%Z in
+  let run := fun sym => snd (star_solve Z Z (fun a b => Z.abs (a - b)) Z.ltb Z.add 0%Z mc sym (fun _ => false) (fun _ r => r) 1000%Z (fun _ _ => true)
+                                (fun x => (x =? 10)%Z) (fun x => Z.abs (x - 10)) 10%Z 0%Z 0%Z (fun _ => 10%nat) [0%Z] 2 [5%Z; 5%Z] [10%Z; 5%Z]) in
+  run true = Some ([0; 5; 10]%Z, false, 0%Z, 55%Z, false) /\ pathcost Z Z Z.add 0%Z mc [0; 5; 10]%Z = 100%Z /\
+  run false = Some ([0; 10]%Z, false, 0%Z, 100%Z, false).
 Proof. vm_compute. repeat split. Qed.
